@@ -75,7 +75,17 @@ def run_case(data):
             if parent in w.tainted:
                 continue
             if op == 'push':
-                res, o = w.push(parent, promised)
+                big = None
+                if ch.chance(24):
+                    # a request list that does not fit one frame: PUSH_PROMISE (4 bytes of promised id) + CONTINUATION
+                    big = list(REQ) + [(b'x-big', b'B' * ch.pick([16376, 16390, 33000]))]
+                    r.labels.add('multi-frame-push')
+                res, o = w.push(parent, promised, hdrs=big)
+                if res == 'ok' and big is not None:
+                    pf = [f for f in o.frames if f.type == wire.PUSH_PROMISE]
+                    got = pf[0].f.get('headers') if pf else None
+                    if got is None or [(n, v) for n, v, _ in got] != big:
+                        w.violate('push:promised-headers-not-those-given', repr((got or [])[:5])[:200])
             else:
                 hdrs = ch.pick(BAD_LISTS)
                 verdict, what = m.push_verdict(parent, promised)
